@@ -109,6 +109,13 @@ pub fn sample_cells(rng: &mut Rng, depth: u8, n: usize) -> Vec<u64> {
       v.push(base | interleave(i, j));
     }
     for _ in 0..3 { let k = rng.below(ns) as u32; v.push(base | interleave(k, 0)); v.push(base | interleave(0, k)); v.push(base | interleave(k, m)); v.push(base | interleave(m, k)); }
+    // inner cells whose coordinates sit next to a power of two (carry / integer-width boundaries of the bit arithmetic): 2^p - 1, 2^p,
+    // and odd multiples q.2^p - 1 of a high power
+    if depth >= 3 { for _ in 0..4 {
+      let p = 1 + rng.below(depth as u64 - 1) as u32; let q = 1 + 2 * rng.below(((ns >> p) / 2).max(1)) as u32;
+      let a = ((q << p) - 1).min(m); let b = (a + 1).min(m); let r = rng.below(ns) as u32;
+      for &(i, j) in [(a, r), (b, r), (r, a), (r, b), (a, a), (a, b), (b, a)].iter() { v.push(base | interleave(i, j)); }
+    } }
   }
   for _ in 0..n { v.push(rng.below(nh)); }
   v
